@@ -155,7 +155,8 @@ def run(tier, seed, replay=None):
             d = gen_and_compile_tables(dialect)
         except BrokenTie as e:
             R.obligation(f'tables {dialect} regenerate+compile', False)
-            broken[dialect] = e
+            R.violation({'dialect': dialect, 'what': e.what, 'detail': e.detail, 'theorem': f'translator / tables for C05_{dialect}'},
+                        nofail=True)
             continue
         sd = side(dialect)
         ok, out = instance(dialect)
@@ -178,7 +179,8 @@ def run(tier, seed, replay=None):
             cases = gen_cases(dialect, rng, n_per)
             # fixed corpus first: the resynchronisation shapes the property text worries about
             for txt in ['x y ; select 1', 'x select 1', 'select 1 select 2', 'select 1 ; select 2', ') select 1',
-                        'select 1 x y', 'select from', '', 'select 1 ;;']:
+                        'select 1 x y', 'select from', '', 'select 1 ;;', 'x y\n; select 1', 'x\nselect 1\nselect 2',
+                        'select a from from t1\nunion\nselect a from t2', 'select 1 x\n\n y select 2']:
                 try:
                     cases.insert(0, ({'kind': 'corpus', 'text': txt}, lex(dialect, re.sub(r'[\s;]+$', '', txt))))
                 except Exception:
